@@ -179,6 +179,11 @@ def trickle(b, codec, spec):
 def run_input(b, specs, col=None, label='', nontriv_hint=True):
     """specs: list of (name, schema or None, IR type or None). -> failures"""
     fails = []
+    # (the framework lifts the interpreter's limit on int <-> str conversions for its own arithmetic; here the library runs under
+    # the interpreter's default, as it does for its users: a ValueError of the interpreter's own must not escape either)
+    import sys
+    if hasattr(sys, 'set_int_max_str_digits'):
+        sys.set_int_max_str_digits(4300)
     dp = x690.max_depth(b)
     if dp is not None and dp > DEPTH_BOUND:
         if col is not None:
@@ -297,6 +302,32 @@ def run_shard(desc, seed, tier, col):
             if d.pct(40):
                 b = b'\x30\x80' + b + b'\x00\x00'
             return {'b': b, 'label': 'edge-length'}
+        if r == 5 and d.pct(30):
+            # numbers spelled with thousands of digits (the interpreter refuses int(str) beyond 4300 digits with a ValueError of its
+            # own): decimal REALs in the three ISO 6093 forms, time strings with endless fractions, huge integers and arcs
+            nd = d.pick([4299, 4300, 4301, 4302, 5000, 9000])
+            digits = (d.pick('123456789') + '0123456789' * (nd // 10 + 1))[:nd]
+            what = d.pick(['nr1', 'nr2', 'nr3-mant', 'nr3-exp', 'nr2-frac', 'time', 'int', 'oid'])
+            if what == 'nr1':
+                c, tagb = b'\x01' + digits.encode(), 0x09
+            elif what == 'nr2':
+                c, tagb = b'\x02' + digits.encode() + b'.5', 0x09
+            elif what == 'nr2-frac':
+                c, tagb = b'\x02' + b'1.' + digits.encode(), 0x09
+            elif what == 'nr3-mant':
+                c, tagb = b'\x03' + digits.encode() + b'.E-3', 0x09
+            elif what == 'nr3-exp':
+                c, tagb = b'\x03' + b'1.E' + d.pick([b'', b'-', b'+']) + digits.encode(), 0x09
+            elif what == 'time':
+                c, tagb = b'20170801120112.' + digits.encode() + b'Z', 0x18
+            elif what == 'int':
+                c, tagb = bytes([d.pick([0x7f, 0x80, 0x01])]) + bytes(nd), 0x02
+            else:
+                c, tagb = b'\x2a' + b'\x81' * nd + b'\x01', 0x06
+            b = bytes([tagb]) + x690.length(len(c)) + c
+            if d.pct(40):
+                b = b'\x30' + x690.length(len(b)) + b if d.pct(50) else b'\x30\x80' + b + b'\x00\x00'
+            return {'b': b, 'label': 'huge-number'}
         if r == 4 and d.pct(50):
             # a record of mandatory members in which one member arrives twice and another one not at all
             kinds = d.draw(st.lists(st.sampled_from(['BOOLEAN', 'INTEGER', 'OCTETSTRING', 'NULL', 'OID', 'UTF8String', 'IA5String', 'BITSTRING']),
